@@ -43,11 +43,12 @@ const c07Contract = `access(all) contract W {
     access(all) var n: Int
     access(all) var a: [Int]
     access(all) var rs: @[R]
-    init() { self.n = 5; self.a = [1,2,3]; self.rs <- [] }
+    view init() { self.n = 5; self.a = [1,2,3]; self.rs <- [] }
     access(all) fun inc() { self.n = self.n + 1 }
     access(all) view fun getN(): Int { return self.n }
   }
   access(all) fun mkR(): @R { return <- create R() }
+  access(all) view fun mkRv(): @R { return <- create R() }
 }`
 
 const c07Setup = `import W from 0x1
@@ -119,6 +120,7 @@ type c07Op struct {
 	Text string // statement or call expression with $ for the place
 	Stmt bool   // true = statement only (not usable inside a condition)
 	Var  bool   // needs an assignable place
+	Ret  string // the operation ends with `return <- ...` of this type (resource moved out of the target)
 }
 
 func c07Paths() []c07Path {
@@ -170,6 +172,15 @@ func c07Paths() []c07Path {
 		{Name: "param-ref", Type: "res", Params: []string{"pr: &W.R"}, Args: []string{"&res as &W.R"}, Place: "pr"},
 		{Name: "storage-borrow", Type: "res", Params: []string{"acct: " + c07AcctType}, Args: []string{"acct"}, Place: "acct.storage.borrow<&W.R>(from: /storage/r)!"},
 		{Name: "self", Type: "res", Place: "self", Needs: "self-res"},
+		// resource-typed places (targets of moves: second-value transfer, force-assignment, swap)
+		{Name: "self-resource-field", Type: "rplace", Place: "self.r", Needs: "self-res", Var: true},
+		{Name: "self-resource-array-element", Type: "rplace", Place: "self.rs[0]", Needs: "self-res"},
+		{Name: "resource-ref-param-array-element", Type: "rplace", Params: []string{"pr: &W.R"}, Args: []string{"&res as &W.R"}, Place: "pr.rs[0]"},
+		{Name: "auth-ref-to-resource-array-element", Type: "rplace", Params: []string{"pa: auth(Mutate) &[W.R]"}, Args: []string{"&resarr as auth(Mutate) &[W.R]"}, Place: "pa[0]"},
+		{Name: "self-optional-resource-field", Type: "roplace", Place: "self.ro", Needs: "self-res", Var: true},
+		{Name: "self-resource-dictionary-element", Type: "roplace", Place: `self.rd["k"]`, Needs: "self-res"},
+		{Name: "self-resource-dictionary-new-key", Type: "roplace", Place: `self.rd["new"]`, Needs: "self-res"},
+		{Name: "auth-ref-to-resource-dictionary-element", Type: "roplace", Params: []string{"pd: auth(Mutate) &{String: W.R}"}, Args: []string{"&resdict as auth(Mutate) &{String: W.R}"}, Place: `pd["k"]`},
 		// account and capability controllers
 		{Name: "param", Type: "acct", Params: []string{"acct: " + c07AcctType}, Args: []string{"acct"}, Place: "acct"},
 		{Name: "get-auth-account", Type: "acct", Place: "getAuthAccount<" + c07AcctType + ">(0x1)"},
@@ -342,6 +353,20 @@ func c07Ops() (out []c07Op, uncovered []string) {
 		c07Op{Name: "field-assign", Type: "res", Text: "$.n = 9", Stmt: true},
 		c07Op{Name: "field-index-assign", Type: "res", Text: "$.a[0] = 9", Stmt: true},
 		c07Op{Name: "nested-resource-append", Type: "res", Text: "$.rs.append(<- W.mkR())"},
+		c07Op{Name: "second-value-transfer", Type: "rplace", Text: "let old <- $ <- W.mkRv(); return <- old", Stmt: true, Ret: "@W.R"},
+		c07Op{Name: "swap-with-fresh", Type: "rplace", Text: "var tmp <- W.mkRv(); $ <-> tmp; return <- tmp", Stmt: true, Ret: "@W.R"},
+		c07Op{Name: "move-assign", Type: "rplace", Text: "$ <- W.mkRv()", Stmt: true},
+		c07Op{Name: "force-assign", Type: "rplace", Text: "$ <-! W.mkRv()", Stmt: true},
+		c07Op{Name: "second-value-transfer", Type: "roplace", Text: "let old <- $ <- W.mkRv(); return <- old", Stmt: true, Ret: "@W.R?"},
+		c07Op{Name: "second-value-transfer-nil", Type: "roplace", Text: "let old <- $ <- nil; return <- old", Stmt: true, Ret: "@W.R?"},
+		c07Op{Name: "swap-with-fresh", Type: "roplace", Text: "var tmp: @W.R? <- W.mkRv(); $ <-> tmp; return <- tmp", Stmt: true, Ret: "@W.R?"},
+		c07Op{Name: "move-assign", Type: "roplace", Text: "$ <- W.mkRv()", Stmt: true},
+		c07Op{Name: "force-assign", Type: "roplace", Text: "$ <-! W.mkRv()", Stmt: true},
+		c07Op{Name: "key-swap", Type: "dict", Text: `$["a"] <-> $["b"]`, Stmt: true},
+		c07Op{Name: "swap-whole", Type: "dict", Text: "$ <-> GD", Stmt: true, Var: true},
+		c07Op{Name: "swap-whole", Type: "struct", Text: "$ <-> GS", Stmt: true, Var: true},
+		c07Op{Name: "field-swap", Type: "struct", Text: "$.a <-> GA", Stmt: true},
+		c07Op{Name: "field-swap", Type: "res", Text: "$.a <-> GA", Stmt: true},
 		c07Op{Name: "call-impure", Type: "none", Text: "impure()"},
 		c07Op{Name: "call-view", Type: "none", Text: "pure()"},
 		c07Op{Name: "emit", Type: "none", Text: "emit E(x: 1)", Stmt: true},
@@ -418,6 +443,9 @@ func c07Compatible(ctx string, p *c07Path, o *c07Op) bool {
 	if o.Var && !p.Var {
 		return false
 	}
+	if o.Ret != "" && ctx != "fun" && ctx != "method-resource" && ctx != "closure" {
+		return false
+	}
 	switch p.Needs {
 	case "self":
 		if ctx != "method-struct" && ctx != "method-resource" && ctx != "init" && ctx != "pre-method" {
@@ -488,10 +516,20 @@ func (a *c07Alphabet) render(c c07Cand, n int) (decl string, ok bool) {
 	}
 	as := strings.Join(labeled, ", ")
 	bs := strings.Join(body, "; ")
-	needRes := strings.Contains(as, "&res ")
 	resSetup, resDump, resEnd := "", "", ""
-	if needRes {
-		resSetup, resDump, resEnd = "let res <- W.mkR(); ", "log(&res as &W.R); ", "destroy res; "
+	if strings.Contains(as, "&res ") {
+		resSetup, resDump, resEnd = "let res <- W.mkR(); res.rs.append(<- W.mkR()); ", "log(&res as &W.R); ", "destroy res; "
+	}
+	if strings.Contains(as, "&resarr ") {
+		resSetup, resDump, resEnd = resSetup+"let resarr <- [<- W.mkR()]; ", resDump+"log(&resarr as &[W.R]); ", resEnd+"destroy resarr; "
+	}
+	if strings.Contains(as, "&resdict ") {
+		resSetup, resDump, resEnd = resSetup+"let resdict <- {\"k\": <- W.mkR()}; ", resDump+"log(&resdict as &{String: W.R}); ", resEnd+"destroy resdict; "
+	}
+	// operations that move a resource out of their target return it; the wrapper destroys the result
+	ret, retSig, consume := o.Ret, "", ""
+	if ret != "" {
+		retSig, consume = ": "+ret, "destroy "
 	}
 	fields := "access(all) var a: [Int]; access(all) var n: Int; access(all) var d: {String: Int}; access(all) var s: W.S"
 	inits := `self.a = [1,2,3]; self.n = 5; self.d = {"a": 1}; self.s = W.S()`
@@ -502,20 +540,24 @@ func (a *c07Alphabet) render(c c07Cand, n int) (decl string, ok bool) {
 	}
 	switch c.Ctx {
 	case "fun":
-		fmt.Fprintf(&sb, "access(all) view fun v%s(%s) { %s }\n", N, ps, bs)
-		w("", "v"+N+"("+as+")", "", "")
+		fmt.Fprintf(&sb, "access(all) view fun v%s(%s)%s { %s }\n", N, ps, retSig, bs)
+		w("", consume+"v"+N+"("+as+")", "", "")
 	case "method-struct":
 		fmt.Fprintf(&sb, "access(all) struct X%s { %s\n  init() { %s }\n  access(all) view fun m(%s) { %s } }\n", N, fields, inits, ps, bs)
 		w("let x = X"+N+"();", "x.m("+as+")", "log(x);", "")
 	case "method-resource":
-		fmt.Fprintf(&sb, "access(all) resource X%s { %s; access(all) var rs: @[W.R]\n  init() { %s; self.rs <- [] }\n  access(all) view fun m(%s) { %s } }\n", N, fields, inits, ps, bs)
-		w("let x <- create X"+N+"();", "x.m("+as+")", "log(&x as &X"+N+");", "destroy x;")
+		fmt.Fprintf(&sb, "access(all) resource X%s { %s; access(all) var rs: @[W.R]; access(all) var r: @W.R; access(all) var ro: @W.R?; access(all) var rd: @{String: W.R}\n  init() { %s; self.rs <- [<- W.mkR()]; self.r <- W.mkR(); self.ro <- nil; self.rd <- {\"k\": <- W.mkR()} }\n  access(all) view fun m(%s)%s { %s } }\n", N, fields, inits, ps, retSig, bs)
+		w("let x <- create X"+N+"();", consume+"x.m("+as+")", "log(&x as &X"+N+");", "destroy x;")
 	case "init":
 		fmt.Fprintf(&sb, "access(all) struct X%s { %s\n  view init(%s) { %s; %s } }\n", N, fields, ps, inits, bs)
 		w("", "let x = X"+N+"("+as+")", "", "")
 	case "closure":
-		fmt.Fprintf(&sb, "access(all) fun w%s(_ acct: %s) { %svar cap = [1,2,3]; var capN = 5; var capD = {\"a\": 1}; var capS = W.S()\n  let fn = view fun (%s): Int { %s; return 0 }\n  log(\"@L\"); %slog(cap); log(capN); log(capD); log(capS); log(\"@C\"); fn(%s); log(\"@L\"); %slog(cap); log(capN); log(capD); log(capS); log(\"@E\"); %s}\n",
-			N, c07AcctType, resSetup, unlabel(params), bs, resDump, strings.Join(args, ", "), resDump, resEnd)
+		closureSig, closureTail := ": Int", "; return 0"
+		if ret != "" {
+			closureSig, closureTail = retSig, ""
+		}
+		fmt.Fprintf(&sb, "access(all) fun w%s(_ acct: %s) { %svar cap = [1,2,3]; var capN = 5; var capD = {\"a\": 1}; var capS = W.S()\n  let fn = view fun (%s)%s { %s%s }\n  log(\"@L\"); %slog(cap); log(capN); log(capD); log(capS); log(\"@C\"); %sfn(%s); log(\"@L\"); %slog(cap); log(capN); log(capD); log(capS); log(\"@E\"); %s}\n",
+			N, c07AcctType, resSetup, unlabel(params), closureSig, bs, closureTail, resDump, consume, strings.Join(args, ", "), resDump, resEnd)
 	case "pre", "post":
 		fmt.Fprintf(&sb, "access(all) fun v%s(%s): Int { %s { ig(%s) } return 1 }\n", N, ps, c.Ctx, bs)
 		w("", "v"+N+"("+as+")", "", "")
@@ -1006,7 +1048,7 @@ func replayC07(env *mc.Env, raw json.RawMessage) (bool, string) {
 func init() {
 	mc.Register(&mc.Check{
 		ID:   "C07",
-		Rule: "every compatible combination of view context (view fun, view method of struct/resource, view init, view closure, pre-/post-condition of a function or method, emit conditions) x access path to a pre-existing value (global, authorized reference parameter, copy parameter, self field, captured variable, local/inline reference, struct field, optional force/chain, nested element, dereferenced copy, storage borrow, capability borrow, cast from AnyStruct, result of a view function, getAuthAccount, account objects, capability controllers) x operation (every function member of [Int], [Int;3], {String:Int}, Account.*, capability controllers and Capability as enumerated from sema, plus assignment, index/member write, swap, impure/view calls, emit, nested impure functions, create/destroy); the checker decides acceptance; every accepted candidate is run on both engines with a full dump of globals, argument/self/captured values and account storage/capabilities/contracts/keys before and after, and (where expressible) as a transaction that must issue no SetValue and no event; thorough adds every ordered pair of operations in a view fun body; non-trivial = distinct accepted candidate that ran",
+		Rule: "every compatible combination of view context (view fun, view method of struct/resource, view init, view closure, pre-/post-condition of a function or method, emit conditions) x access path to a pre-existing value (global, authorized reference parameter, copy parameter, self field, captured variable, local/inline reference, struct field, optional force/chain, nested element, dereferenced copy, storage borrow, capability borrow, cast from AnyStruct, result of a view function, getAuthAccount, account objects, capability controllers) x operation (every function member of [Int], [Int;3], {String:Int}, Account.*, capability controllers and Capability as enumerated from sema, plus assignment, index/member write, swap, resource moves (second-value transfer, move- and force-assignment, swap with a fresh resource) on resource fields / array and dictionary elements / through authorized references, impure/view calls, emit, nested impure functions, create/destroy); the checker decides acceptance; every accepted candidate is run on both engines with a full dump of globals, argument/self/captured values and account storage/capabilities/contracts/keys before and after, and (where expressible) as a transaction that must issue no SetValue and no event; thorough adds every ordered pair of operations in a view fun body; non-trivial = distinct accepted candidate that ran",
 		Assumptions: []string{
 			"the dump (log of every global, reference-reachable argument, storage path value, capability controller, contract name, key count) shows every value that existed before the call",
 			"an accepted candidate that aborts at run time in both engines has no observable effect and is not judged",
